@@ -23,6 +23,8 @@ def gen_op(i, menu):
         return {"op": k, "table": {"C": fresh_int("vC%d" % i, -1, 9), "N": fresh_int("vN%d" % i, -1, 9), "?": 2}}
     if k == "set_invalid":
         return {"op": k, "which": ["valid_then_invalid", "missing_q"][int(fresh_int("iv%d" % i, 0, 1))]}
+    if k == "preset_mutate":
+        return {"op": k, "name": NAMES[int(fresh_int("pm%d" % i, 0, 2))]}
     if k == "decode":
         return {"op": k, "x": WARM[int(fresh_int("wx%d" % i, 0, len(WARM) - 1))]}
     if k == "encode":
@@ -37,7 +39,7 @@ def run(rep, tier, seed, budget):
     total = budget or (85 if quick else 1200)
     t_end = time.time() + total
     api = make_api(ctx)
-    MENU = ["set_preset", "set_dict", "set_invalid", "decode", "encode", "alphabet_mutate", "mutate_passed", "get_mutate"]
+    MENU = ["set_preset", "set_dict", "set_invalid", "decode", "encode", "alphabet_mutate", "mutate_passed", "get_mutate", "preset_mutate"]
 
     def level(K, N):
         def path(eng, col):
